@@ -60,6 +60,16 @@ pub fn value_pool() -> Vec<MVal> {
         utc(1_600_000_001),
         MVal::Coord(F(1.0), F(2.0)),
         MVal::XStr("T".into(), "x".into()),
+        // neighbours: doubles one ulp apart; strings whose code point order and UTF-16 code unit order differ
+        MVal::num(0.3),
+        MVal::num(0.1 + 0.2),
+        MVal::Num(F(0.3), Some("meter".into())),
+        MVal::Num(F(0.1 + 0.2), Some("meter".into())),
+        MVal::str("ab\u{ff21}"),
+        MVal::str("ab\u{1f600}"),
+        MVal::str("ab\u{e000}z"),
+        MVal::Uri("ab\u{ff21}".into()),
+        MVal::Uri("ab\u{1f600}".into()),
     ]
 }
 
@@ -354,6 +364,37 @@ pub fn run(ctx: &mut Ctx) {
         ctx.eval("resolver", crate::prng::mix(&[filter_fp(&f), dict_fp(&rec), i]), true);
         check_one(ctx, &f, &rec, &ModelRefs(wm), Some(&res), "resolver");
         ctx.note_max("max_resolve_ref_calls_per_eval", res.calls.get() as f64);
+    }
+    // ---- long ref chains: '*==' follows a chain of any length to its end (and stops on a long cycle) ------------
+    for (i, len) in [2usize, 3, 10, 31, 32, 33, 34, 35, 63, 64, 65, 100, 257, 1000].iter().enumerate() {
+        if (i as u64) % ctx.nshards != ctx.shard % ctx.nshards || !ctx.begin("long-chain", i as u64) {
+            continue;
+        }
+        let len = *len;
+        for cyclic in [false, true] {
+            let mut wm: HashMap<String, MDict> = HashMap::new();
+            for k in 0..len {
+                let mut d = MDict::new();
+                d.insert("id".into(), MVal::Ref(format!("c{k}"), None));
+                d.insert("site".into(), MVal::Marker);
+                if k + 1 < len {
+                    d.insert("a".into(), MVal::Ref(format!("c{}", k + 1), None));
+                } else if cyclic {
+                    d.insert("a".into(), MVal::Ref("c0".into(), None));
+                }
+                wm.insert(format!("c{k}"), d);
+            }
+            let wl: HashMap<String, Dict> = wm.iter().map(|(k, v)| (k.clone(), to_dict(v))).collect();
+            let mut rec = MDict::new();
+            rec.insert("a".into(), MVal::Ref("c0".into(), None));
+            for target in [0usize, 1, len / 2, len.saturating_sub(2), len - 1, len, len + 7] {
+                let res = ChainResolver { recs: wl.clone(), calls: Cell::new(0) };
+                let f = FOr(vec![FAnd(vec![FTerm::WildcardEq(vec!["a".to_string()], format!("c{target}"), None)])]);
+                ctx.eval("long-chain", crate::prng::mix(&[len as u64, cyclic as u64, target as u64]), true);
+                check_one(ctx, &f, &rec, &ModelRefs(wm.clone()), Some(&res), "long-chain");
+                ctx.note_max("max_ref_chain_followed", len as f64);
+            }
+        }
     }
     // ---- grids: filter = first matching row, filter_all = all matching rows in order ------------------
     let n = ctx.n(3_000, 60_000);
